@@ -1,7 +1,8 @@
 /- Driver/C18.lean — line-protocol driver for the C18 model (see Base/Proto.lean).
 
-   in:  {"op":"reset","self":n,"ncpu":n,["stat_cpus":n (cpuN lines of /proc/stat; default ncpu),]"nr_open":n,"cap":bool,
-         "procs":[{"pid":n,"nice":i,"ioprio":n,"affinity":[n],"cpuset":[n],"rlimits":[[s,h]×16]}]}
+   in:  {"op":"reset","self":n,"ncpu":n (= nr_cpu_ids),["stat_cpus":n (cpuN lines of /proc/stat; default ncpu),]"nr_open":n,
+         "cap":bool (CAP_SYS_RESOURCE),["cap_nice":bool (CAP_SYS_NICE; default true),]
+         "procs":[{"pid":n,"nice":i,"ioprio":n,"affinity":[n],"cpuset":[n],"rlimits":[[s,h]×16],["foreign":bool (another user's)]}]}
         {"op":"call","pid":n,["errno":n,]["status_mask":[n]|null,]   (execution context: C errno on entry of the native
                                                                       layer; mask shown by the cached status file)
                              "req":{"kind":"nice","value":i|null}
@@ -40,7 +41,7 @@ def parseProc (j : Json) : R (Nat × PState) := do
   let rl ← listF parsePair j "rlimits"
   if rl.length ≠ 16 then .error "rlimits must have 16 entries"
   pure (pid, { nice := nice, ioprio := ioprio, affinity := aff, cpuset := cs,
-               rlimits := fun r => rl.getD r (0, 0) })
+               rlimits := fun r => rl.getD r (0, 0), foreign := (← optF asBool j "foreign").getD false })
 
 /-- an int-like argument in the form named by the optional field `<key>_form` ("int" when absent) -/
 def scalarOf (j : Json) (key : String) (v : Int) : R Scalar := do
@@ -82,7 +83,7 @@ def parseReq (j : Json) : R PyReq := do
   else .error s!"unknown request kind {kind}"
 
 def errnoName : Errno → String
-  | .ESRCH => "ESRCH" | .EINVAL => "EINVAL" | .EPERM => "EPERM"
+  | .ESRCH => "ESRCH" | .EINVAL => "EINVAL" | .EPERM => "EPERM" | .EACCES => "EACCES"
 
 def jExc : Exc → Json
   | .valueError => jObj [("kind", "exc"), ("exc", "ValueError")]
@@ -93,6 +94,7 @@ def jExc : Exc → Json
   | .accessDenied p => jObj [("kind", "exc"), ("exc", "AccessDenied"), ("pid", jNat p)]
   | .noSuchProcess p => jObj [("kind", "exc"), ("exc", "NoSuchProcess"), ("pid", jNat p)]
   | .undefinedC => jObj [("kind", "undefined-c")]
+  | .hang => jObj [("kind", "hang")]
 
 def jVal : Val → Json
   | .none => Json.null
@@ -132,7 +134,7 @@ def handle (d : DSt) (j : Json) : R (DSt × Json) := do
       { procs := fun q => ps.lookup q
         self := ← natF j "self", ncpu := ← natF j "ncpu"
         statCpus := (← optF asNat j "stat_cpus").getD (← natF j "ncpu"), nrOpen := ← natF j "nr_open"
-        capResource := ← boolF j "cap", log := [] }
+        capResource := ← boolF j "cap", capNice := (← optF asBool j "cap_nice").getD true, log := [] }
     return (⟨k, ps.map (·.1)⟩, ok (Json.str "reset"))
   if op == "pack" then
     return (d, ok (jNat (ioprioPack cfg.shift (← natF j "cls") (← natF j "data"))))
